@@ -1057,7 +1057,7 @@ def coq_recheck(ctx: Ctx, mods, items: List[Tuple[Dict[str, Any], str]]) -> None
 
 # ---- independent oracle: the property statement on the implementation only ---------------
 
-def oracle(mods, u: Dict[str, Any], rq: Dict[str, Any], base: str) -> Optional[str]:
+def oracle(mods, u: Dict[str, Any], rq: Dict[str, Any], base: str, prefix: Optional[List[Dict[str, Any]]] = None) -> Optional[str]:
     """Checks the statement on the real stack only.  Ground truth for 'this repository can satisfy the
     request' is asked of the real leaf repository in isolation (a fresh stack, leaf.get_dist)."""
     E, Version, M = mods["E"], mods["Version"], mods["M"]
@@ -1076,6 +1076,13 @@ def oracle(mods, u: Dict[str, Any], rq: Dict[str, Any], base: str) -> Optional[s
     got_order = [b.ids[id(l)] for l in b.leaves]
     if got_order != want_order:
         return f"stack order {got_order} is not the documented order {want_order}"
+    # the statement holds for EVERY request put to a stack, whatever was asked of it before: earlier requests of the
+    # history are put to the same stack first (their outcomes are not judged here)
+    for p in prefix or []:
+        try:
+            run_request(mods, b, p)
+        except Exception:
+            pass
     obs = run_request(mods, b, rq)
     parts = obs.split(" | ")
     log = [] if parts[2] == "-" else [int(x) for x in parts[2].split(",")]
@@ -1149,15 +1156,17 @@ def search(ctx: Ctx) -> Optional[Dict[str, Any]]:
     mods = _imports()
     rng = ctx.rng
     base = str(ctx.tmpdir() / "search")
-    suspects: List[Tuple[Dict[str, Any], Dict[str, Any]]] = []
+    suspects: List[Tuple[Dict[str, Any], Dict[str, Any], List[Dict[str, Any]]]] = []
     for m in ctx.mismatches:
         c = m.get("case")
         if isinstance(c, dict) and "universe" in c:
-            suspects.append((c["universe"], c["request"]))
+            suspects.append((c["universe"], c["request"], []))
     for _ in range(ctx.n(400, 4000)):
         u = gen_universe(rng)
-        for rq in u["requests"]:
-            suspects.append((u, rq))
+        for j, rq in enumerate(u["requests"]):
+            suspects.append((u, rq, []))
+            if j:       # ... and as the last request of the history the universe was generated with
+                suspects.append((u, rq, list(u["requests"][:j])))
     main_suspects = [m["case"] for m in ctx.mismatches if isinstance(m.get("case"), dict) and m["case"].get("main")]
     for _ in range(ctx.n(300, 3000)):
         main_suspects.append(gen_main_case(rng))
@@ -1178,10 +1187,10 @@ def search(ctx: Ctx) -> Optional[Dict[str, Any]]:
                 break
     if best is not None:
         return best[1]
-    for k, (u, rq) in enumerate(suspects):
+    for k, (u, rq, prefix) in enumerate(suspects):
         d = os.path.join(base, "s%d" % k)
         try:
-            why = oracle(mods, u, rq, d)
+            why = oracle(mods, u, rq, d, prefix)
         except Exception as ex:
             why = None
         finally:
@@ -1189,7 +1198,8 @@ def search(ctx: Ctx) -> Optional[Dict[str, Any]]:
         if why:
             size = len(json.dumps(u))
             if best is None or size < best[0]:
-                best = (size, {"input": {"universe": {kk: vv for kk, vv in u.items() if kk != "requests"}, "request": rq}, "why": why})
+                best = (size + 200 * len(prefix), {"input": {"universe": {kk: vv for kk, vv in u.items() if kk != "requests"}, "request": rq,
+                                                             "prefix": prefix}, "why": why + (f" (after {len(prefix)} earlier request(s) to the same stack)" if prefix else "")})
             if size < 500:
                 break
     return best[1] if best else None
@@ -1204,7 +1214,7 @@ def replay(ctx: Ctx, payload: Dict[str, Any]) -> bool:
     try:
         if fi["input"].get("main"):
             return oracle_main(mods, fi["input"], d) is not None
-        return oracle(mods, fi["input"]["universe"], fi["input"]["request"], d) is not None
+        return oracle(mods, fi["input"]["universe"], fi["input"]["request"], d, fi["input"].get("prefix")) is not None
     finally:
         shutil.rmtree(d, ignore_errors=True)
 
